@@ -7,6 +7,7 @@
 -/
 import EEM.Real
 import EEM.Model.BillingAgg
+import EEM.Gen.BillingAggTable
 import Mathlib.Tactic.Linarith
 import Mathlib.Tactic.Ring
 import Mathlib.Algebra.BigOperators.Group.List.Basic
@@ -239,6 +240,66 @@ theorem C19_bad_argument_rejected (s : String) :
         · intro h; exact absurd h3 h.2.2
       · rw [if_neg h1, if_neg h2, if_neg h3]
         exact ⟨fun _ => ⟨h1, h2, h3⟩, fun _ => rfl⟩
+
+
+/-! ### T1: the model's reductions and argument rule ARE the source's (tables regenerated from the
+AST of `BillingModel.predict` / `BillingWeightedModel.predict` on every run) -/
+
+open EEM.Gen.BillingAggTable in
+/-- the source's if-chain on `aggregation` computes exactly the model's `parseAgg`, for EVERY
+argument (in particular it never reaches `None.lower()` and never falls through) -/
+theorem C19_src_argument_rule (arg : Option String) :
+    evalChain billingArgChain arg = chainOfAgg (parseAgg arg) ∧
+    evalChain weightedArgChain arg = chainOfAgg (parseAgg arg) := by
+  cases arg with
+  | none => exact ⟨rfl, rfl⟩
+  | some s =>
+    simp only [billingArgChain, weightedArgChain, evalChain, ArgTest.fires, parseAgg, Option.isNone]
+    by_cases h1 : (s.toLower == "none") = true
+    · simp [h1, chainOfAgg]
+    · by_cases h2 : (s == "monthly") = true
+      · simp [h1, h2, chainOfAgg]
+      · by_cases h3 : (s == "bimonthly") = true
+        · simp [h1, h2, h3, chainOfAgg]
+        · simp [h1, h2, h3, chainOfAgg]
+
+/-- the rules the source passes to `resample` are the month counts the model groups by -/
+theorem C19_src_rule_months (a : Agg) (h : a ≠ .none) :
+    ∃ r, chainOfAgg (some a) = .rule r ∧ monthsOfRule r = some (monthsPer a) := by
+  cases a with
+  | none => exact absurd rfl h
+  | monthly => exact ⟨"MS", rfl, rfl⟩
+  | bimonthly => exact ⟨"2MS", rfl, rfl⟩
+
+open EEM.Gen.BillingAggTable in
+/-- both classes aggregate with the same table, every column is resampled with the one rule
+variable `agg`, and only `observed` is optional -/
+theorem C19_src_columns_shape :
+    weightedColumns = billingColumns ∧
+    billingColumns.all (fun r => r.2.1 == "agg") = true ∧
+    (billingColumns.filter (fun r => r.2.2.2)).map (·.1) = ["observed"] := by
+  decide +kernel
+
+open EEM.Gen.BillingAggTable in
+/-- every numeric cell of a model period is the SOURCE's reduction of that column over the rows of
+the period: sums for predicted / observed / heating / cooling, mean for temperature, root-sum-square
+for the uncertainty -/
+theorem C19_src_reductions (k m0 : Int) (rows : List (DRow ℝ)) (p : Nat) :
+    let grp := rows.filter fun r => periodIndex k m0 r.ym == (p : Int)
+    let q := aggPeriod k m0 rows p
+    (lookupRed billingColumns "predicted").map (fun r => reduce r (grp.map (·.predicted))) = some (some q.predicted) ∧
+    (lookupRed billingColumns "observed").map (fun r => reduce r (grp.map (·.observed))) = some (some q.observed) ∧
+    (lookupRed billingColumns "heating_load").map (fun r => reduce r (grp.map (·.heating))) = some (some q.heating) ∧
+    (lookupRed billingColumns "cooling_load").map (fun r => reduce r (grp.map (·.cooling))) = some (some q.cooling) ∧
+    (lookupRed billingColumns "predicted_unc").map (fun r => reduce r (grp.map (·.unc))) = some (some q.unc) ∧
+    (lookupRed billingColumns "temperature").map (fun r => reduce r (grp.map (·.temperature))) = some q.temperature := by
+  have h1 : lookupRed billingColumns "predicted" = some .sum := by decide +kernel
+  have h2 : lookupRed billingColumns "observed" = some .sum := by decide +kernel
+  have h3 : lookupRed billingColumns "heating_load" = some .sum := by decide +kernel
+  have h4 : lookupRed billingColumns "cooling_load" = some .sum := by decide +kernel
+  have h5 : lookupRed billingColumns "predicted_unc" = some .rss := by decide +kernel
+  have h6 : lookupRed billingColumns "temperature" = some .mean := by decide +kernel
+  simp only [h1, h2, h3, h4, h5, h6, Option.map_some, reduce, aggPeriod, and_self]
 
 /-! ### Non-vacuity -/
 example : Sorted [⟨24240, some 50, none, some 1, some 1.5, some 0, some 0⟩,
